@@ -113,7 +113,14 @@ def c_ir(n: Dict[str, Any], src_of: Optional[Callable[[Dict[str, Any]], str]] = 
     if k == 'CallExpr':
         return ('call', c_ir(n['inner'][0], src_of), [c_ir(a, src_of) for a in n['inner'][1:]])
     if k == 'UnaryExprOrTypeTraitExpr':
-        return ('other', 'sizeof')
+        # sizeof reads as the type it measures, however it is spelled: sizeof(T), sizeof(*p), sizeof(a[0]), sizeof x
+        t = n.get('argType', {}).get('qualType')
+        if t is None and n.get('inner'):
+            x = n['inner'][0]
+            while x.get('kind') in ('ParenExpr', 'ImplicitCastExpr') and x.get('inner'):
+                x = x['inner'][0]
+            t = x.get('type', {}).get('qualType')
+        return ('other', f'sizeof({(t or "?").replace("const ", "").strip()})' if n.get('name', 'sizeof') == 'sizeof' else n.get('name'))
     return ('other', src_of(n) if src_of else str(k))
 
 
